@@ -281,6 +281,11 @@ func c15Filters() []c15Filter {
 		{name: "concat: other", apply: func(in ref.List, a c15Alpha) (ref.V, bool) {
 			return append(append(ref.List{}, in...), c15Other...), true
 		}},
+		// the ARGUMENT written as a range: its integers are appended, an empty range appends nothing
+		{name: "concat: (7..9)", apply: func(in ref.List, a c15Alpha) (ref.V, bool) {
+			return append(append(ref.List{}, in...), ref.Int(7), ref.Int(8), ref.Int(9)), true
+		}},
+		{name: "concat: (3..1)", apply: func(in ref.List, a c15Alpha) (ref.V, bool) { return append(ref.List{}, in...), true }},
 		{name: `map: "k"`, apply: func(in ref.List, a c15Alpha) (ref.V, bool) {
 			out := ref.List{}
 			for _, x := range in {
